@@ -60,6 +60,9 @@ def splice_fn(s, name, impl, spec):
     body = s.text[it['open']:it['end']]
     mbody = s.mask[it['open']:it['end']]
     spec = spec or {}
+    if spec.get('strip_pub'):
+        # visibility does not matter in the single generated module; a `pub fn` may not mention private spec functions / fields
+        sig = re.sub(r'^(\s*)pub(?:\([^)]*\))?\s+', r'\1', sig)
     # return value naming:  `-> T` => `-> (r: T)`
     if spec.get('ret'):
         m = re.search(r'->\s*(.+?)\s*$', sig, flags=re.S)
@@ -194,6 +197,8 @@ def build_and_verify(scratch, kind='parser'):
     try:
         if kind == 'parser':
             text, shas = verus_parser.build(scratch, verus_specs.SPECS, verus_specs.EXTRA)
+        elif kind == 'lexer':
+            text, shas = verus_parser.build_lexer(scratch, verus_specs.LEXER_SPECS, verus_specs.LEXER_EXTRA)
         else:
             text, shas = build_sum(scratch)
     except AnchorLost as e:
@@ -332,6 +337,13 @@ def run_kind(kind, vobl, prop, results, undecided, violations, checker_cmds, ass
     for fn, h in res['shas'].items():
         extra['functions'].append({'fn': fn, 'engine': 'V', 'how': 'extracted verbatim on this run, contracts spliced',
                                    'sha256_16': h})
+    if kind == 'lexer':
+        assumptions.append('lexer: a Vec has at most usize::MAX elements and a String fewer than isize::MAX characters (requires of Lexer::new; true of every Rust value)')
+        assumptions.append('lexer: `X.chars().nth(N)` is the N-th character of X or None (external stub verif_char_at replacing that expression: Verus cannot specify the provided method Iterator::nth)')
+        assumptions.append('lexer: looks_like_date (regex) and looks_like_expression (closures) return an arbitrary bool and do not panic or diverge (external stubs)')
+        assumptions.append('trusted (external_body, no body verified): ' + ', '.join(sorted(set(res['external_bodies']))))
+        extra['dropped'].append('Engine V (lexer) extraction drops: derives other than PartialEq, the test module, DATE_ALIKE_REGEX; rewrite: `input_part.chars().nth(self.char_index as usize)` -> `verif_char_at(input_part, self.char_index as usize)`')
+        return
     if kind == 'sum':
         assumptions.append('SUM: the mathematical sum fits usize (requires); String keys obey the hash-table key model (vstd obeys_key_model::<String>, assumed)')
         return
